@@ -596,6 +596,8 @@ func execC07(line string, oracle bool) string {
 		return execDigest(w[0], parseSpec(w[1]))
 	case "dm3":
 		return execDm3(w, oracle)
+	case "conc":
+		return execConc(w, line, "C07")
 	case "k1":
 		return execK1(w, oracle)
 	case "vc":
@@ -1118,6 +1120,10 @@ func evalPathAlloc(root reflect.Value, path string, idx []int) (reflect.Value, b
 func genC07(tier string, rng *xvlib.Rng, run func(string, bool)) {
 	thorough := tier == "thorough"
 	initSymTab()
+	// 0. ids and digests computed by several goroutines at once
+	for i := 0; i < 3; i++ {
+		run(fmt.Sprintf("conc %d %d %d", rng.Intn(1<<30), 12, map[bool]int{false: 150, true: 2000}[thorough]), true)
+	}
 	// 1. pre-images: extracted schemas against the real hashes (all versions); Lean bytes against the schema bytes (v3)
 	nPre := 600
 	if thorough {
